@@ -122,6 +122,12 @@ func c07(tier string) []*explore.Scenario {
 	for m := 1; m <= 4; m++ {
 		out = append(out, c07OtherUnread(m, bound))
 	}
+	// the context handed to Serve has a deadline (earlier / later than the call's own): a cancel still reaches the handler
+	for _, serve := range []time.Duration{10 * time.Minute, 3 * time.Hour} {
+		for _, call := range []time.Duration{0, time.Hour} {
+			out = append(out, c07ServeDeadline(serve, call, bound))
+		}
+	}
 	// calls started on a context that is already over
 	for _, kind := range []string{"Unary", "Bidi", "SStream", "CStream"} {
 		for _, how := range []string{"cancelled", "expired"} {
@@ -212,6 +218,67 @@ func c07OtherUnread(m, bound int) *explore.Scenario {
 			vsched.Quiesce()
 			if !rb.CDone || rb.CErr != io.EOF || len(rb.CRecv) != m {
 				vsched.Fail(fam+"|bystander", "stream B (bystander) did not complete: %s", rb.Summary())
+			}
+			finishDirect(d, w, true)
+		},
+	}
+}
+
+// c07ServeDeadline: Serve was given a context with a deadline; the streaming
+// call has a deadline of its own (or none); the caller cancels explicitly while
+// the handler waits on its context. The handler's context becomes done, the
+// reset is on the wire, the caller sees Canceled.
+func c07ServeDeadline(serve, call time.Duration, bound int) *explore.Scenario {
+	fam := "C07/serve-deadline"
+	return &explore.Scenario{
+		Name:   fmt.Sprintf("C07/serve-deadline/serve=%v/call=%v", serve, call),
+		Family: fam, Prop: "C07", Bound: bound,
+		Run: func() {
+			w := env.NewWorld()
+			d := env.NewDirect(w, env.DirectOpts{Pipe: env.PipeOpts{Cap: 64}, ServeTimeout: serve})
+			vsched.Settle()
+			vsched.Explore(true)
+			r := w.Rec("s", "Bidi")
+			var hctx context.Context
+			w.Handlers["s"] = func(r *env.Rec, ss grpc.ServerStream) error {
+				hctx = ss.Context()
+				ss.RecvMsg(new(env.Msg))
+				<-ss.Context().Done()
+				return status.FromContextError(ss.Context().Err()).Err()
+			}
+			ctx, cancel := context.WithCancel(context.Background())
+			defer cancel()
+			if call > 0 {
+				var c2 context.CancelFunc
+				ctx, c2 = context.WithTimeout(ctx, call)
+				defer c2()
+			}
+			var rerr error
+			done := false
+			var cs grpc.ClientStream
+			vsched.GoNamed("caller", func() {
+				cs = w.Open(d.CC, ctx, r)
+				if cs != nil {
+					env.CSend(r, cs, "m")
+				}
+			})
+			vsched.Quiesce() // the handler has the message and waits on its context
+			vsched.GoNamed("caller2", func() {
+				if cs != nil {
+					cancel()
+					rerr = cs.RecvMsg(new(env.Msg))
+				}
+				done = true
+			})
+			vsched.Quiesce()
+			vsched.Obs("serve=%v call=%v: done=%v err=%s handler-ctx-done=%v", serve, call, done, env.ErrStr(rerr), hctx != nil && hctx.Err() != nil)
+			if !done {
+				vsched.Fail(fam+"|hang", "the caller never returned; threads: %s", threadList())
+			} else if status.Code(rerr) != codes.Canceled {
+				vsched.Fail(fam+"|status", "a receive on the cancelled stream returned %s", env.ErrStr(rerr))
+			}
+			if r.HStarts == 1 && (hctx == nil || hctx.Err() == nil) {
+				vsched.Fail(fam+"|handler-ctx-live", "Serve context deadline %v, call deadline %v: the caller cancelled, but the handler's context is still live", serve, call)
 			}
 			finishDirect(d, w, true)
 		},
